@@ -47,6 +47,7 @@ package format
 //@   requires input != nil
 //@   loop 1 invariant h != nil && rr != nil && sr != nil && sr.r == rr && sr.err == nil && (forall j in 0..len(h.Recipients) :: h.Recipients[j] != nil) && issuffix(rr.$rem, old(input.$rem))
 //@   loop 1 invariant#count len(h.Recipients) == calls("ReadStanza",1) - old(calls("ReadStanza",1))          [C01 C03 C07]
+//@   loop 1 invariant#freshrec rg(h.Recipients) == 0 || fresh(h.Recipients)
 //@   loop 1 invariant#noerr lasterr("ReadStanza",1) == nil && lasterr("Peek",1) == nil && lasterr("ReadBytes",1) == nil
 //@   loop 1 decreases len(rr.$rem)
 //@   ensures#intro err == nil ==> sub(old(input.$rem), 0, 22) == "age-encryption.org/v1\n"                   [C03 C05 C07]
